@@ -93,6 +93,10 @@ def generate(tier, seed):
             pr = {"mean": float("%.3g" % rnd.uniform(-1, 6)), "std": gen.nice(rnd, 0.05, 3)}
         else:
             pr = {"k": float(rnd.choice([1, 2, 3, 5, 8])) if rnd.random() < 0.6 else float("%.3g" % rnd.uniform(1, 8)), "theta": gen.nice(rnd, 0.05, 4)}
+            if (i // 2) % 2 == 0:
+                # the edge of the range: shape exactly 1 (an exponential law), with a scale away from 1
+                pr["k"] = 1.0
+                pr["theta"] = gen.nice(rnd, 0.05, 0.5) if (i // 4) % 2 == 0 else gen.nice(rnd, 2, 6)
         cases.append({"kind": "law", "family": fam, "params": pr, "n": 100000 if tier == "quick" else 1000000,
                       "seed": util.seed64(PROPERTY, tier, seed, "law%d" % i), "stage": 1})
     # in-flight law
